@@ -269,6 +269,49 @@ extern "C" int vf_run_case(const uint8_t * data, size_t size)
          vf::Count("reuse_after_reset_checked");
       }
    }
+   if (((kind == G_BIN_UNLIMITED)||(kind == G_BIN_LIMITED))&&(bs.flip()))
+   {
+      // a frame too large for the gateway's 2048-byte scratch buffer (so its receive buffer is a heap block of exactly the frame's size) whose last field claims a few bytes
+      // more than the frame holds: the end of the body is cut off by 1..8 bytes and the length word in the frame header says so.  Rejected cleanly, or ASan speaks.
+      MessageRef m = GetMessageFromPool(4242); (void) m()->AddInt32("first", 1); const uint32 pad = 2010+bs.u8(); const uint8_t tb = bs.u8();
+      switch(tb%4)
+      {
+         case 0: {std::string raw(pad, 'r'); (void) m()->AddData("last", B_RAW_TYPE, raw.data(), (uint32)raw.size());} break;
+         case 1: (void) m()->AddString("last", String("s").PaddedBy(pad)); break;
+         case 2: {for (uint32 i=0; i<pad/8; i++) (void) m()->AddInt64("last", (int64)i);} break;
+         default: {std::string raw(pad, 'q'); (void) m()->AddData("mid", B_RAW_TYPE, raw.data(), (uint32)raw.size()); MessageRef sub = GetMessageFromPool(7); (void) sub()->AddString("x", "yz"); (void) m()->AddMessage("last", sub);} break;
+      }
+      Pipe p1, back; Plan gen(&bs); gen.generous = true; {MessageIOGateway snd(MUSCLE_MESSAGE_ENCODING_DEFAULT); ChopIO sio3(&back, &p1, &gen); snd.SetDataIO(DummyDataIORef(sio3)); (void) snd.AddOutgoingMessage(m); for (int r=0; (r<400)&&(snd.HasBytesToOutput()); r++) (void) snd.DoOutput();}
+      std::string frame; while(p1.q.size()) {frame.push_back((char)p1.q.front()); p1.q.pop_front();}
+      if (frame.size() > 2056)
+      {
+         const uint32 cut = 1+(tb>>2)%8; frame.resize(frame.size()-cut); hostile::wr32(frame, 0, (uint32_t)(frame.size()-8));
+         Pipe pin, pout; for (size_t i=0; i<frame.size(); i++) pin.q.push_back((uint8)frame[i]);
+         Plan rp(&bs); rp.generous = ((tb>>5)&1) != 0; MessageIOGateway rcv; ChopIO rio3(&pin, &pout, &rp); rcv.SetDataIO(DummyDataIORef(rio3)); Sink s3;
+         for (int r=0; (r<3000)&&(pin.q.size()); r++) {if (r > 400) rp.generous = true; if (rcv.DoInput(s3).IsError()) break;}
+         if (s3.n > 0) vf::Count("lying_frame_delivered_with_a_shortened_last_field");     // (an array of fixed-size items that ends early is accepted with the items that are there: lenient, and not this property's business)
+         vf::Count("frame_with_lying_last_field_beyond_the_scratch_buffer");
+      }
+   }
+   if ((kind == G_TUNNEL)&&(bs.flip()))
+   {
+      // the size gate of the tunnel holds for every Message of a source, not only for its first: one sender, a receiver with a small limit, Messages below and above it
+      // (the sizes are the peer's to declare: an oversized Message must not be reassembled, whatever came before it)
+      const uint32 limit = 1200+(uint32)bs.u8()*4; std::deque<std::string> none, pk; PktIO * sio2 = new PktIO(&none, 300); sio2->_out = &pk;
+      PacketTunnelIOGateway snd(AbstractMessageIOGatewayRef(), 300); snd.SetDataIO(DataIORef(sio2));
+      const uint32 nm = 3+bs.u8()%3; std::vector<uint32> sizes; uint32 expectSmall = 0;
+      for (uint32 i=0; i<nm; i++)
+      {
+         MessageRef m = GetMessageFromPool(100+i); const bool big = (i > 0)&&(bs.u8()%2 == 0); const uint32 payload = big ? limit+1+bs.range(0, 3000) : bs.range(0, limit-200);
+         std::string raw(payload, (char)('a'+i)); (void) m()->AddData("d", B_RAW_TYPE, raw.data(), (uint32)raw.size()); sizes.push_back(m()->FlattenedSize()); if (m()->FlattenedSize() <= limit) expectSmall++;
+         (void) snd.AddOutgoingMessage(m); for (int r=0; (r<400)&&(snd.HasBytesToOutput()); r++) (void) snd.DoOutput();
+      }
+      struct LimitSink : public AbstractGatewayMessageReceiver {uint32 n, limit; LimitSink(uint32 l) : n(0), limit(l) {} virtual void MessageReceivedFromGateway(const MessageRef & m, void *) {if (m()) {n++; if (m()->FlattenedSize() > limit) vf::Fail("a packet tunnel with a maximum incoming Message size of %u delivered a Message of %u bytes (not the first Message of its sender)", limit, m()->FlattenedSize());}}} ls(limit);
+      PacketTunnelIOGateway rcv(AbstractMessageIOGatewayRef(), 300); rcv.SetMaxIncomingMessageSize(limit); PktIO * rio = new PktIO(&pk, 300); rcv.SetDataIO(DataIORef(rio));
+      for (int r=0; (r<4000)&&(pk.size()); r++) if (rcv.DoInput(ls).IsError()) break;
+      if (ls.n > expectSmall) vf::Fail("a packet tunnel with a maximum incoming Message size of %u delivered %u Messages, only %u of the %u sent are within the limit", limit, ls.n, expectSmall, nm);     // (Messages that share a packet with a refused fragment are dropped with it: the tunnel may lose, it may not exceed)
+      vf::Count("tunnel_size_gate_checked"); if (expectSmall < nm) vf::Count("case_tunnel_size_gate_with_oversized_message_after_the_first");
+   }
    vf::Count(GNAMES[kind]); vf::Count("messages_delivered", delivered); if (sawError) vf::Count("case_gateway_reported_error"); vf::Count("mutations", nmut);
    // non-trivial: the input reaches frame parsing (a valid first frame/preamble/packet precedes or contains the mutation), i.e. it is not rejected at byte 0
    const bool nontrivial = (src != 0)&&((wire.size() > 8)||(packets.size() > 0));
